@@ -17,19 +17,33 @@ a neutral spelling does.
 Histories (real code only): the dictionary handed to the parser may have been parsed before (parsing
 rewrites it in place) or be a shallow copy of one, taken before or after that parse. A keyword or a
 back edge introduced afterwards must be refused like in a fresh dictionary, and a dictionary that was
-refused parses once the keyword is taken out again."""
+refused parses once the keyword is taken out again.
+Keys of keyed positions (g): the name under which a sub-schema sits in properties / patternProperties / dependencies / definitions is drawn
+from an open pool - ordinary names and patterns, ECMA-262 patterns that Python's `re` refuses (composed from ECMA-only atoms), strings no
+regex dialect accepts, keyword spellings, non-ASCII / very long / reserved names. Whatever the key, the value is a schema position: a keyword
+(directly or deeper) below it is refused, and a reference cycle through it is refused (in-memory graphs (i) and documents through main (d)).
+Fresh in-memory reference graphs (i): self / mutual / long cycles through every link kind and key, entered at the root, from a fresh host
+position or from a `definitions` member, against the same graph with the closing edge cut (which must parse).
+Ambient condition (h): the refusals must not depend on what else the process is doing. Another thread is suspended *inside* a library call
+(parse_element / parse / generate of a supported, an unsupported or a recursive document, stopped at a chosen line event of the library's
+own files by a trace function - plain dictionaries only) while the checking thread runs keyword pairs, recursive graphs, recursive documents
+through main and supported bases; every outcome must be what the same call gives in a quiet process, and so must the suspended call's own
+outcome once it is let go. All waits are timed: a call that does not come back while / after the other thread is held is reported."""
 import copy
 import json
 import os
 import random
+import re
 import shutil
+import sys
 import tempfile
+import threading
 
 from statham.schema.exceptions import FeatureNotImplementedError, SchemaParseError
 from statham.schema.parser import parse, parse_element
 from statham.serializers import serialize_python
 
-from harness import core
+from harness import core, sched
 from harness.framework import Outcome
 from harness.gen import SchemaGen
 
@@ -325,12 +339,12 @@ LINK_KINDS = ["properties", "patternProperties", "dependencies", "items", "tuple
               "contains", "propertyNames", "anyOf", "oneOf", "allOf", "not"]
 
 
-def add_link(node, kind, target):
+def add_link(node, kind, target, key=None):
     if kind in ("properties", "patternProperties", "dependencies"):
         cur = node.get(kind)
         if not isinstance(cur, dict):
             cur = node[kind] = {}
-        cur["^next" if kind == "patternProperties" else "next"] = target
+        cur[key if key is not None else "^next" if kind == "patternProperties" else "next"] = target
     elif kind in ("anyOf", "oneOf", "allOf"):
         cur = node.get(kind)
         if not isinstance(cur, list):
@@ -459,9 +473,355 @@ def check_history(h, out, stats, label):
     out.failures.append({"case": case, "what": what, "finding": None})
 
 
+# ---- keys of keyed positions: whatever a sub-schema is called, it is a schema position
+
+KEYED_KINDS = ["properties", "patternProperties", "dependencies", "definitions"]
+ECMA_ATOMS = [r"\p{L}", r"\P{Lu}", r"\p{Script=Greek}", r"\cA", r"\cj", "[^]", r"\u{1F600}", r"\u{61}", r"(?<year>\d{4})", r"[\w-.]", r"\e", r"\-", r"\k<n>(?<n>a)"]
+PLAIN_KEYS = ["p", "^p", "^x-", "^[a-z]+$", ".*", "a|b", r"\d+$", "^(foo|bar)_[0-9]{1,3}$", "next", "^next"]
+NO_DIALECT_KEYS = ["(", "[a-", "*a", "a{2,1}", ")", "(?"]
+ODD_KEYS = ["a b", "ключ", "\u0000", "x" * 300, "__class__", "class", "1", "$ref", "$id", "title", "type", "properties", "^", "\\\\", "\U0001F600", "a.b", "a-b"]
+# Two keys are NOT in the pool, each a separate observation on the unchanged library that has been reported rather than listed here:
+# "" (json_ref_dict's materialize mangles a document with an empty key before statham sees it, so main() returns a module for
+# {"properties": {"": {"if": {}}}}) and "_x_autotitle" (statham's own annotation key: literal copies drop it, so a reference cycle that
+# passes through an entry of that name and closes inside enum / const / default is accepted by main()).
+
+
+def key_stratum(key):
+    try:
+        re.compile(key)
+    except re.error:
+        return "re-rejects"
+    except Exception:  # noqa: BLE001
+        return "re-crashes"
+    return "re-accepts"
+
+
+def key_pool(rng, n_composed=8):
+    """(key, family) pairs: every fixed key plus ECMA-262 patterns composed around an atom that is not Python `re` syntax"""
+    pool = [(k, "plain") for k in PLAIN_KEYS] + [(k, "no-dialect") for k in NO_DIALECT_KEYS] + [(k, "odd-text") for k in ODD_KEYS]
+    pool += [(k, "keyword-spelling") for k in UNSUPPORTED]
+    pool += [(a, "ecma-atom") for a in ECMA_ATOMS]
+    for _ in range(n_composed):
+        atom = rng.choice(ECMA_ATOMS)
+        pool.append((rng.choice(["^", "", "^x", "(a|b)", "^[a-z]"]) + atom + rng.choice(["", "+$", "*", "$", "{2}", "|z"]), "ecma-composed"))
+    return pool
+
+
+def keyed_host(kind, key, child, rng):
+    """a supported schema with `child` under `key` at a keyed position, alone or beside ordinary entries"""
+    base = {"title": "Host", "type": "object"}
+    entries = {key: child}
+    if rng.random() < 0.5:
+        other = "^ok_" if kind == "patternProperties" else "ok"
+        if other != key:
+            entries = {other: {"type": "integer"}, key: child} if rng.random() < 0.5 else {key: child, other: {"type": "integer"}}
+    base[kind] = entries
+    path = (kind, key)
+    wrap = rng.random()
+    if wrap < 0.2 and kind != "definitions":
+        return {"title": "Outer", "type": "array", "items": base}, ("items",) + path
+    if wrap < 0.35 and kind != "definitions":
+        return {"title": "Outer", "type": "string", "definitions": {"inner": base}}, ("definitions", "inner") + path
+    return base, path
+
+
+def check_keyed(drv, sg, rng, out, stats, quick):
+    pool = key_pool(rng, 8 if quick else 60)
+    for key, family in pool:
+        kinds = ["patternProperties", rng.choice(["properties", "dependencies", "definitions"])] if quick else KEYED_KINDS
+        for kind in kinds:
+            child = sg.leaf()
+            child = {k: v for k, v in child.items() if k not in UNSUPPORTED} if isinstance(child, dict) else {}
+            sub = ()
+            if rng.random() < 0.3:     # the keyword deeper below the key
+                deep_kind = rng.choice([k for k in POSITION_KINDS if k not in ("root", "definitions")])
+                child, sub = host(deep_kind, child, rng)
+                child = dict(child)
+                child["title"] = "Below"
+            base, path = keyed_host(kind, key, child, rng)
+            if uses_unsupported(base):
+                continue
+            kw = rng.choice(list(UNSUPPORTED))
+            stats[f"key-{family}"] = stats.get(f"key-{family}", 0) + 1
+            stats[f"key-{key_stratum(key)}-{kind}"] = stats.get(f"key-{key_stratum(key)}-{kind}", 0) + 1
+            check_pair(drv, base, path + tuple(sub), kind if not sub else deep_kind, kw, rng.choice(UNSUPPORTED[kw]), out, stats, f"keyed-{kind}-{family}")
+
+
+# ---- fresh in-memory reference graphs (what reference resolution hands to the parser), as data
+
+OBJECT_LINKS = ("properties", "patternProperties", "dependencies", "additionalProperties", "propertyNames")
+ARRAY_LINKS = ("items", "tuple-items", "additionalItems", "contains")
+
+
+def make_graph(rng, length, entry, keys):
+    """nodes 0..length-1, node i linked to node i+1 through links[i]; the last link closes the cycle back to node 0"""
+    nodes, links = [], []
+    for i in range(length):
+        kind = rng.choice(LINK_KINDS)
+        node = {"title": f"N{i}"}
+        r = rng.random()
+        if r < 0.7:
+            if kind in OBJECT_LINKS:
+                node["type"] = "object"
+            elif kind in ARRAY_LINKS:
+                node["type"] = "array"
+        elif r < 0.8:
+            node["type"] = rng.choice(["object", "array", "string"])
+        link = {"kind": kind}
+        if kind in ("properties", "patternProperties", "dependencies") and rng.random() < 0.75:
+            link["key"] = rng.choice(keys)[0]
+        nodes.append(node)
+        links.append(link)
+    return {"nodes": nodes, "links": links, "entry": entry}
+
+
+def build_graph(g, closed=True):
+    nodes = [copy.deepcopy(n) for n in g["nodes"]]
+    for i, link in enumerate(g["links"]):
+        last = i + 1 == len(nodes)
+        add_link(nodes[i], link["kind"], (nodes[0] if closed else {}) if last else nodes[i + 1], link.get("key"))
+    entry = g.get("entry", "root")
+    if entry == "root":
+        return nodes[0]
+    if entry == "definitions":
+        return {"title": "Root", "type": "string", "definitions": {"start": nodes[0]}}
+    return host(entry, nodes[0], random.Random(g.get("host_seed", 0)))[0]
+
+
+def graph_routes(g):
+    return ["parse", "generate"] if g.get("entry") == "definitions" else ["parse_element", "parse", "generate"]
+
+
+def graph_fails(g, route):
+    control = classify_shared(ROUTES[route], build_graph(g, closed=False))
+    got = classify_shared(ROUTES[route], build_graph(g, closed=True))
+    return (control == "ok" and got != "notImplemented"), control, got
+
+
+def check_graphs(rng, n, out, stats, keys):
+    plan = [(1, "root", k) for k in LINK_KINDS] + [(2, "root", None), (25, "definitions", None)]
+    plan += [(rng.choice([1, 1, 2, 2, 3, 5, 8, 25]), rng.choice(["root", "root", "definitions"] + [k for k in POSITION_KINDS if k not in ("root", "definitions")]), None)
+             for _ in range(n)]
+    for i, (length, entry, first_kind) in enumerate(plan):
+        g = make_graph(rng, length, entry, keys)
+        if first_kind:
+            g["links"][0]["kind"] = first_kind
+            if first_kind not in ("properties", "patternProperties", "dependencies"):
+                g["links"][0].pop("key", None)
+        if entry not in ("root", "definitions"):
+            g["host_seed"] = rng.randrange(1 << 30)
+        route = rng.choice(graph_routes(g))
+        case = {"label": f"graph-{i}", "graph": g, "route": route}
+        out.note_case(case, True)
+        fails, control, got = graph_fails(g, route)
+        for key in (f"graph-length-{length}", f"graph-entry-{entry if entry in ('root', 'definitions') else 'hosted'}", f"graph-{route}-{got}", f"graph-control-{control}"):
+            stats[key] = stats.get(key, 0) + 1
+        for link in g["links"]:
+            stats["graph-through-" + link["kind"]] = stats.get("graph-through-" + link["kind"], 0) + 1
+            if "key" in link:
+                stats["graph-key-" + key_stratum(link["key"])] = stats.get("graph-key-" + key_stratum(link["key"]), 0) + 1
+        if fails:
+            through = ", ".join(l["kind"] + (f"[{l['key']!r}]" if "key" in l else "") for l in g["links"])
+            out.failures.append({"case": case, "finding": None,
+                                 "what": f"in-memory reference cycle of length {length} through {through} (entered at {entry}): {route} "
+                                         + ("returned a result" if got == "ok" else f"ended with {got}") + " instead of the not-implemented error, "
+                                         "while the same graph with the closing edge cut parses"})
+
+
+# ---- ambient condition: another thread is suspended inside the library
+
+HOLD_S = 15.0
+
+
+class Suspended:
+    """Runs `thunk` in another thread under a trace function and suspends it at its k-th line event inside the library's files until let go."""
+
+    def __init__(self, thunk, k):
+        self.thunk, self.k = thunk, k
+        self.n = 0
+        self.entered, self.release, self.reached, self.done = threading.Event(), threading.Event(), threading.Event(), threading.Event()
+        self.expired = False
+        self.result = None
+        self.thread = threading.Thread(target=self._body, daemon=True)
+
+    def _on_line(self):
+        self.n += 1
+        if self.n == self.k:
+            self.entered.set()
+            self.reached.set()
+            if not self.release.wait(HOLD_S):
+                self.expired = True
+
+    def _body(self):
+        sys.settrace(sched.make_tracer(self._on_line))
+        try:
+            self.result = self.thunk()
+        except BaseException as exc:  # noqa: BLE001
+            self.result = "other:" + type(exc).__name__
+        finally:
+            sys.settrace(None)
+            self.done.set()
+            self.reached.set()
+
+    def start(self):
+        """True when the thread is now suspended inside the library"""
+        self.thread.start()
+        self.reached.wait(HOLD_S)
+        return self.entered.is_set() and not self.done.is_set()
+
+    def finish(self):
+        self.release.set()
+        self.thread.join(HOLD_S)
+        return "never-returned" if self.thread.is_alive() else self.result
+
+
+def subject_doc(spec):
+    """a schema / graph / document spec, built afresh"""
+    if "graph" in spec:
+        return build_graph(spec["graph"])
+    return copy.deepcopy(spec["schema"])
+
+
+def call_spec(spec):
+    return classify_shared(ROUTES[spec["route"]], subject_doc(spec))
+
+
+def play_ambient(case):
+    """Returns (state, probe outcomes, ambient outcome): the probes run on this thread while the ambient call is suspended at line event k."""
+    amb = case["ambient"]
+    held = Suspended(lambda: call_spec(amb), amb["k"])
+    if not held.start():
+        held.finish()
+        return "not-held", [], None
+    got = []
+    try:
+        for probe in case["probes"]:
+            got.append(call_spec(probe))
+    finally:
+        expired = held.expired
+        last = held.finish()
+    return ("hold-expired" if expired else "held"), got, last
+
+
+def ambient_fails(case, controls_done=False):
+    """Oracle: each probe, run in a quiet process, gives what the statement demands (refused / parses) - then it must give the same while
+    another thread is inside the library, and that thread's call must end as it does alone. (controls_done: the caller has just observed
+    the quiet outcomes itself.)"""
+    quiet = [p["expect"] if controls_done else call_spec(p) for p in case["probes"]]
+    alone = case["ambient"]["expect"] if controls_done else call_spec(case["ambient"])
+    if quiet != [p["expect"] for p in case["probes"]] or alone != case["ambient"]["expect"]:
+        return False, "control-differs", quiet, alone
+    state, got, last = play_ambient(case)
+    if state == "not-held":
+        return False, state, got, last
+    return (state == "hold-expired" or got != quiet or last != alone), state, got, last
+
+
+def make_ambient(rng, sg, keys):
+    """the call another thread is in the middle of"""
+    r = rng.random()
+    route = rng.choice(["parse_element", "parse_element", "parse", "generate"])
+    if r < 0.12:
+        g = make_graph(rng, rng.choice([1, 2, 5]), "root", keys)
+        spec = {"route": route, "graph": g, "expect": "notImplemented", "kind": "recursive"}
+        if graph_fails(g, route) != (False, "ok", "notImplemented"):
+            return None
+    else:
+        base = sg.schema(3)
+        if not isinstance(base, dict):
+            return None
+        base = copy.deepcopy(base)
+        base.setdefault("title", "Root")
+        if uses_unsupported(base) or classify(ROUTES[route], base) != "ok":
+            return None
+        spec = {"route": route, "schema": base, "expect": "ok", "kind": "supported"}
+        if r < 0.3:
+            path, _ = rng.choice(list(positions(base)))
+            kw = rng.choice(list(UNSUPPORTED))
+            at(base, path)[kw] = copy.deepcopy(rng.choice(UNSUPPORTED[kw]))
+            spec.update(expect="notImplemented", kind="unsupported")
+            if classify(ROUTES[route], base) != "notImplemented":
+                return None
+    n, res = sched.count_lines(lambda: call_spec(spec))
+    if res != spec["expect"] or n < 1:
+        return None
+    spec["lines"] = n
+    spec["k"] = rng.choice([1, max(1, n // 2), n, rng.randint(1, n), rng.randint(1, n), rng.randint(1, min(n, 400))])
+    return spec
+
+
+def make_probes(rng, sg, keys):
+    probes = []
+    # keyword at a position, and the schema without it
+    for _ in range(2):
+        kind = rng.choice(POSITION_KINDS)
+        child = sg.leaf()
+        child = {k: v for k, v in child.items() if k not in UNSUPPORTED} if isinstance(child, dict) else {}
+        if kind == "root":
+            child.setdefault("title", "Root")
+        base, path = host(kind, child, rng)
+        kw = rng.choice(list(UNSUPPORTED))
+        mutated = copy.deepcopy(base)
+        at(mutated, path)[kw] = copy.deepcopy(rng.choice(UNSUPPORTED[kw]))
+        route = rng.choice(["parse", "generate", "main"] + ([] if kind == "definitions" else ["parse_element"]))
+        probes.append({"route": route, "schema": mutated, "expect": "notImplemented", "kind": "keyword"})
+        probes.append({"route": route, "schema": base, "expect": "ok", "kind": "base"})
+    # recursive references: in-memory graphs (self, mutual, long; root / definitions / hosted) and a document through main
+    for length, entry in ((1, "root"), (2, rng.choice(["root", "definitions"])), (rng.choice([3, 5, 25]), rng.choice(["root", "definitions", "properties", "items", "anyOf"]))):
+        g = make_graph(rng, length, entry, keys)
+        if entry not in ("root", "definitions"):
+            g["host_seed"] = rng.randrange(1 << 30)
+        probes.append({"route": rng.choice(graph_routes(g)), "graph": g, "expect": "notImplemented", "kind": "recursive-graph"})
+    ref_kind = rng.choice(["properties", "items", "additionalProperties", "anyOf", "not"])
+    node = {"title": "Node"}
+    add_link(node, ref_kind, {"$ref": "#"})
+    probes.append({"route": "main", "schema": node, "expect": "notImplemented", "kind": "recursive-document"})
+    rng.shuffle(probes)
+    return probes
+
+
+def check_ambient(rng, sg, n, out, stats, keys):
+    for i in range(n):
+        amb = make_ambient(rng, sg, keys)
+        if amb is None:
+            stats["ambient-skipped"] = stats.get("ambient-skipped", 0) + 1
+            continue
+        probes = make_probes(rng, sg, keys)
+        # keep the probes that do what the statement says in a quiet process (anything else is the business of the other sections)
+        probes = [p for p in probes if call_spec(p) == p["expect"]]
+        case = {"label": f"ambient-{i}", "ambient": amb, "probes": probes}
+        out.note_case(case, True)
+        fails, state, got, last = ambient_fails(case, controls_done=True)   # probes filtered above, the ambient call observed alone by make_ambient
+        stats[f"ambient-{state}"] = stats.get(f"ambient-{state}", 0) + 1
+        if state in ("not-held", "control-differs"):
+            continue
+        stats[f"ambient-in-{amb['route']}-of-{amb['kind']}"] = stats.get(f"ambient-in-{amb['route']}-of-{amb['kind']}", 0) + 1
+        where = "first-line" if amb["k"] == 1 else "last-line" if amb["k"] == amb["lines"] else "inside"
+        stats[f"ambient-suspended-{where}"] = stats.get(f"ambient-suspended-{where}", 0) + 1
+        stats[f"ambient-own-outcome-{last}"] = stats.get(f"ambient-own-outcome-{last}", 0) + 1
+        for p, g in zip(probes, got):
+            stats[f"ambient-probe-{p['kind']}-{g}"] = stats.get(f"ambient-probe-{p['kind']}-{g}", 0) + 1
+        if not fails:
+            continue
+        busy = f"another thread suspended at line event {amb['k']} of {amb['lines']} inside {amb['route']} of a {amb['kind']} document"
+        bad = [(p, g) for p, g in zip(probes, got) if g != p["expect"]]
+        if bad:
+            p, g = bad[0]
+            single = {"label": case["label"], "ambient": amb, "probes": [p]}
+            if ambient_fails(single)[0]:
+                case = single
+            what = (f"{p['kind']} ({p['route']}) with {busy}: " + ("returned a result" if g == "ok" else f"ended with {g}")
+                    + f" instead of {'the not-implemented error' if p['expect'] == 'notImplemented' else 'parsing'}, which is what the same call gives in a quiet process")
+        elif state == "hold-expired":
+            what = f"with {busy}, the calls on this thread did not come back until the other thread was let go after {HOLD_S:.0f} s"
+        else:
+            what = f"{busy}: once let go, that call ended with {last} instead of {amb['expect']} (its outcome alone), after {len(probes)} calls on this thread"
+        out.failures.append({"case": case, "what": what, "finding": None})
+
+
 # ---- reference cycles
 
-def cycle_documents(rng, n):
+def cycle_documents(rng, n, keys=None):
     docs = []
     link_kinds = ["properties", "items", "tuple-items", "additionalProperties", "additionalItems", "contains", "patternProperties",
                   "propertyNames", "dependencies", "anyOf", "oneOf", "allOf", "not",
@@ -508,6 +868,17 @@ def cycle_documents(rng, n):
             root = {"title": "Root", "type": "array", "items": {"$ref": "#/definitions/tail"}, "definitions": defs}
             label = "tail"
         docs.append((f"{label}-{length}", root, "cyclic", kinds))
+    # cycles through keyed positions, whatever the key is called
+    for key, family in (keys or []):
+        kind = rng.choice(["patternProperties", "patternProperties", "properties", "dependencies"])
+        node = {"title": "N0", "type": "object", kind: {key: {"$ref": "#"}}}
+        if rng.random() < 0.5:
+            docs.append((f"self-{kind}-key-{family}", node, "cyclic", [kind]))
+        else:
+            node[kind][key] = {"$ref": "#/definitions/d1"}
+            root = {"title": "Root", "type": "object", "properties": {"entry": {"$ref": "#/definitions/d0"}},
+                    "definitions": {"d0": node, "d1": link(rng.choice(link_kinds), "#/definitions/d0", 1)}}
+            docs.append((f"reached-2-{kind}-key-{family}", root, "cyclic", [kind]))
     # a cycle whose closing edge runs through a `definitions` container only (listed region C20-definitions-back-reference)
     docs.append(("defs-back-root", {"type": "object", "title": "A", "properties": {"x": {"type": "integer"}}, "definitions": {"again": {"$ref": "#"}}}, "defs-back", ["definitions"]))
     docs.append(("defs-back-nested", {"type": "object", "title": "A", "properties": {"x": {"$ref": "#/definitions/b"}},
@@ -542,10 +913,10 @@ def run_main(path):
         return "other:" + type(exc).__module__.split(".")[0] + "." + type(exc).__name__
 
 
-def check_cycles(rng, n, out, stats):
+def check_cycles(rng, n, out, stats, keys=None):
     tmp = tempfile.mkdtemp(prefix="statham-c20-")
     try:
-        for i, (label, doc, expect, kinds) in enumerate(cycle_documents(rng, n)):
+        for i, (label, doc, expect, kinds) in enumerate(cycle_documents(rng, n, keys)):
             path = os.path.join(tmp, f"doc{i}.json")
             with open(path, "w", encoding="utf8") as fh:
                 json.dump(doc, fh)
@@ -555,6 +926,8 @@ def check_cycles(rng, n, out, stats):
             stats[f"cycle-{expect}-{got}"] = stats.get(f"cycle-{expect}-{got}", 0) + 1
             for k in kinds:
                 stats["cycle-through-" + k] = stats.get("cycle-through-" + k, 0) + 1
+            if "-key-" in label:
+                stats["cycle-key-" + label.split("-key-")[1]] = stats.get("cycle-key-" + label.split("-key-")[1], 0) + 1
             if expect == "acyclic":
                 if got != "ok":
                     out.failures.append({"case": case, "what": f"acyclic references refused or crashed: {got}", "finding": None})
@@ -579,6 +952,13 @@ def run(ctx, scale=1.0):
                 "then used as the base of a keyword-at-a-position pair; (f) histories on the real code: first parse (parse_element / parse / generate), "
                 "subject = the same dictionary | shallow copy after | shallow copy before, then a keyword or a back edge at a place that is still a "
                 "dictionary (or: first parse refused, keyword removed again), last parse directly or inside a fresh host at each position kind; "
+                "(g) keyed positions (properties / patternProperties / dependencies / definitions) under keys from an open pool: plain names and patterns, "
+                "ECMA-262 patterns Python's re refuses (fixed atoms and composed), strings no dialect accepts, keyword spellings, odd text - keyword "
+                "directly or one level deeper below the key, host alone / inside items / inside definitions; the same keys on cycle documents in (d); "
+                "(i) fresh in-memory reference graphs: length 1-25 through 13 link kinds with pool keys, entered at root / definitions member / fresh "
+                "host position, vs the graph with the closing edge cut; (h) ambient: another thread suspended at line event k (first / middle / last / "
+                "random) inside parse_element / parse / generate of a supported / unsupported / recursive document while keyword pairs, bases, recursive "
+                "graphs and a recursive document through main run on the checking thread, timed holds; "
                 "distinct by SHA-256")
     stats = {}
     drv = core.Driver()
@@ -661,8 +1041,15 @@ def run(ctx, scale=1.0):
                 stats["history-base-skipped"] = stats.get("history-base-skipped", 0) + 1
                 continue
             check_history(h, out, stats, f"history-{i}")
+        # (g) keyed positions under keys from the open pool
+        check_keyed(drv, sg, rng, out, stats, quick)
+        keys = key_pool(rng, 8 if quick else 60)
+        # (i) fresh in-memory reference graphs
+        check_graphs(rng, int((45 if quick else 3000) * scale), out, stats, keys)
+        # (h) the same refusals while another thread is suspended inside the library
+        check_ambient(rng, sg, int((20 if quick else 1500) * scale), out, stats, keys)
         # (d) reference cycles
-        check_cycles(rng, int((40 if ctx["tier"] == "quick" else 1500) * scale), out, stats)
+        check_cycles(rng, int((40 if ctx["tier"] == "quick" else 1500) * scale), out, stats, keys if quick else keys * 3)
     finally:
         drv.close()
     out.stats = stats
@@ -682,6 +1069,10 @@ def search(ctx, reason):
 def _case_fails(case):
     if "history" in case:
         return history_fails(case["history"])[0]
+    if "ambient" in case:
+        return ambient_fails(case)[0]
+    if "graph" in case:
+        return graph_fails(case["graph"], case.get("route", "parse"))[0]
     if case.get("expect") == "parses":
         fn = ROUTES[case.get("route", "parse")]
         if "twin" in case:
